@@ -440,6 +440,8 @@ class Translator:
             self.bad(e, f"isinstance on static type {ty}")
         if cls.id == "EmptySpecifier":
             core = "is_SEmpty"
+        elif cls.id in ("AnySpecifier", "RangeSpecifier", "UnionSpecifier"):
+            core = {"AnySpecifier": "is_SAny", "RangeSpecifier": "is_SRange", "UnionSpecifier": "is_SUnion"}[cls.id]
         else:
             self.bad(e, f"boolean isinstance against {cls.id}")
         if p:
